@@ -162,6 +162,92 @@ def make_desc(seed, i, tier):
     return gw.gen(rng, whole_col=(tier == 'thorough' and i % 40 == 0))
 
 
+# -- sheet-less workbooks: A1 and relative R1C1 spellings are the same formula ------
+
+def make_flat_case(seed, i):
+    import random
+    rng = random.Random('fvmon/C03/flat/%s/%s' % (seed, i))
+    consts = {}
+    for c in range(1, 4):
+        for r in range(1, 13):
+            if rng.random() < 0.8:
+                consts[(c, r)] = float(rng.randint(-9, 40))
+    forms = {}
+    made = []
+    for n in range(rng.randint(5, 12)):
+        host = (rng.randint(5, 9), rng.randint(1, 14))
+        if host in forms:
+            continue
+        terms = []
+        for _ in range(rng.randint(1, 3)):
+            t = rng.random()
+            if t < 0.5:
+                c1, c2 = sorted((rng.randint(1, 3), rng.randint(1, 3)))
+                r1, r2 = sorted((rng.randint(1, 12), rng.randint(1, 12)))
+                terms.append(['SUM', [c1, r1, c2, r2]] if rng.random() < 0.7 else
+                             ['COUNT', [c1, r1, c2, r2]])
+            elif t < 0.8 or not made:
+                terms.append(['cell', [rng.randint(1, 3), rng.randint(1, 12)]])
+            else:
+                terms.append(['cell', list(rng.choice(made))])
+        forms[host] = terms
+        made.append(host)
+    return {'kind': 'flat', 'id': i, 'consts': [[c, r, v] for (c, r), v in consts.items()],
+            'forms': [[c, r, t] for (c, r), t in forms.items()]}
+
+
+def _flat_dict(case, mode):
+    d = {}
+    for c, r, v in case['consts']:
+        d['%s%d' % (col_name(c), r)] = v
+
+    def ref(c, r, hc, hr):
+        if mode == 'a1':
+            return '%s%d' % (col_name(c), r)
+        if c != hc and r != hr:          # the library reads R[..]C[..] only with
+            return 'R[%d]C[%d]' % (r - hr, c - hc)     # both offsets non-zero
+        return 'R%dC%d' % (r, c)
+    for hc, hr, terms in case['forms']:
+        parts = []
+        for t in terms:
+            if t[0] == 'cell':
+                parts.append(ref(t[1][0], t[1][1], hc, hr))
+            else:
+                c1, r1, c2, r2 = t[1]
+                a, b = ref(c1, r1, hc, hr), ref(c2, r2, hc, hr)
+                if mode != 'a1' and a.startswith('R[') != b.startswith('R['):
+                    a, b = 'R%dC%d' % (r1, c1), 'R%dC%d' % (r2, c2)
+                parts.append('%s(%s:%s)' % (t[0], a, b))
+        d['%s%d' % (col_name(hc), hr)] = '=' + '+'.join(parts)
+    return d
+
+
+def check_flat(case, ctx):
+    import formulas
+    sols = {}
+    for mode in ('a1', 'r1c1'):
+        d = _flat_dict(case, mode)
+        try:
+            sol = formulas.ExcelModel().from_dict(d).calculate()
+        except Exception as ex:
+            ctx.violation('flat:raised:%s:%s' % (mode, type(ex).__name__), {
+                'case': case, 'observed': '%s: %s' % (type(ex).__name__, str(ex)[:150]),
+                'accepted': ['a calculated workbook']})
+            return
+        sols[mode] = {k: xl.canon(xl.scalar(sol[k])) if k in sol else ('missing',)
+                      for k in d}
+    ctx.case(('flat', case['id']))
+    ctx.count('monitor.flat-twins')
+    bad = [k for k in sols['a1'] if not xl.same(sols['a1'][k], sols['r1c1'][k])]
+    if bad:
+        k = bad[0]
+        ctx.violation('flat:r1c1-spelling-differs', {
+            'case': case, 'cell': k, 'formula_a1': _flat_dict(case, 'a1')[k],
+            'formula_r1c1': _flat_dict(case, 'r1c1')[k],
+            'observed': xl.show(sols['r1c1'][k]),
+            'accepted': [xl.show(sols['a1'][k]) + ' (same formula spelled in A1 notation)']})
+
+
 def variants(i, with_xlsx):
     import random
     out = [('dict/identity', None), ('dict/reversed', lambda it: it[::-1])]
@@ -304,6 +390,9 @@ def plan(tier, seed):
             specs.append({'kind': 'descs', 'lo': lo, 'hi': min(nd, lo + per),
                           'hashseed': h, 'xlsx': h in (0, 1), 'timeout': 1500})
     specs.append({'kind': 'fixture', 'name': 'excel.xlsx', 'timeout': 900})
+    nf = 300 if tier == 'quick' else 6000
+    for lo in range(0, nf, 150):
+        specs.append({'kind': 'flat', 'lo': lo, 'hi': lo + 150})
     if tier == 'thorough':
         specs.append({'kind': 'fixture', 'name': 'test.xlsx', 'timeout': 3000})
     return specs
@@ -312,6 +401,8 @@ def plan(tier, seed):
 def check_case(case, ctx):
     if case['kind'] == 'fixture':
         check_fixture(case['name'], ctx)
+    elif case['kind'] == 'flat':
+        check_flat(case, ctx)
     else:
         check_desc(case['desc'], case.get('index', 0), ctx)
 
@@ -319,6 +410,12 @@ def check_case(case, ctx):
 def run(spec, ctx):
     if spec['kind'] == 'fixture':
         check_fixture(spec['name'], ctx)
+        return
+    if spec['kind'] == 'flat':
+        for i in range(spec['lo'], spec['hi']):
+            case = make_flat_case(spec['seed'], i)
+            check_flat(case, ctx)
+        ctx.sample({'r1c1 rendering': dict(list(_flat_dict(case, 'r1c1').items())[-4:])})
         return
     for i in range(spec['lo'], spec['hi']):
         desc = make_desc(spec['seed'], i, spec['tier'])
